@@ -199,7 +199,7 @@ func (c *Component) SendIQ(ctx context.Context, iq *stanza.IQ) (chan stanza.IQ, 
 	// before Send returns.
 	result := c.router.NewIQResultRoute(ctx, iq.Attrs.Id)
 	if err := c.Send(iq); err != nil {
-		c.router.removeIQResultRoute(iq.Attrs.Id)
+		c.router.removeIQResultRoute(iq.Attrs.Id, result)
 		return nil, err
 	}
 	return result, nil
